@@ -72,6 +72,15 @@ const Matrix<double>& FullHmmTransitionMatrix::getPij() const
         pij_(i, j) = vSimplex_[i].prob(j);
       }
     }
+
+    // The equilibrium frequencies share the 'upToDate_' flag: refresh them together with the matrix.
+    MatrixTools::pow(pij_, 256, tmpmat_);
+
+    for (size_t i = 0; i < vSimplex_.size(); ++i)
+    {
+      eqFreq_[i] = tmpmat_(0, i);
+    }
+
     upToDate_ = true;
   }
 
@@ -80,21 +89,8 @@ const Matrix<double>& FullHmmTransitionMatrix::getPij() const
 
 const std::vector<double>& FullHmmTransitionMatrix::getEquilibriumFrequencies() const
 {
-  size_t salph = getNumberOfStates();
-
   if (!upToDate_)
-  {
-    pij_ = getPij();
-
-    MatrixTools::pow(pij_, 256, tmpmat_);
-
-    for (size_t i = 0; i < salph; ++i)
-    {
-      eqFreq_[i] = tmpmat_(0, i);
-    }
-
-    upToDate_ = true;
-  }
+    getPij(); // also refreshes the equilibrium frequencies
 
   return eqFreq_;
 }
